@@ -438,6 +438,9 @@ def gen_c04(rnd, n, thorough=False):
                 fr = now - rnd.randint(0, R + 5); un = fr + rnd.randint(0, R + 5)
             fr, un = min(max(fr, 0), 2 ** 32 - 1), min(max(un, 0), 2 ** 32 - 1)        # Timestamp is a uint32
             lines.append("fetch f %d %d %d %d" % (a, fr, un, now))
+            if rnd.chance(0.25) and 0 < now < 2 ** 32 - 10 ** 6:
+                # the same fetch without an explicit clock while the library's clock moves on with every reading
+                lines.append("wfetchtick f %d %d %d %d %d" % (a, fr, un, now, rnd.pick([1, 1, S, R, 60])))
             tags['ops'][e] = tags['ops'].get(e, 0) + 1
         cases.append({'id': 'c04-%d' % c, 'lines': lines, 'tags': tags})
         if c == 3:
@@ -588,7 +591,7 @@ def clockify(lines, rnd=None):
     set to each operation's instant; best-archive calls become Update / UpdateMany / Fetch, calls naming
     an archive get a now argument of 0."""
     out, cur = [], None
-    step = 0 if rnd is None else rnd.pick([0, 0, 1, 1, 2, 60])
+    step = 0
     for l in lines:
         tk = l.split()
         if tk[0] in ('upd', 'fetch') and len(tk) == 6:
